@@ -38,7 +38,45 @@ def resolve_hints(p, a1=None, a2=None, op=None):
     return int(a1), int(a2), (None if op is None else int(op))
 
 
+def default_candidates(p, a1=None, a2=None, op=None, tie=1e-9):
+    """every (a1, a2, op) the documented defaults could resolve to when distances tie (a pattern with two
+    equally far pairs has no unique default axis; which one is picked depends on rounding)"""
+    p = np.asarray(p, float); n = len(p)
+    if n == 1:
+        return [(0, 0, None)]
+    dm = np.linalg.norm(p[:, None] - p[None], axis=2)
+    if a1 is None and a2 is None:
+        axes = [(int(i), int(j)) for i in range(n) for j in range(n) if i != j and dm[i, j] >= dm.max() - tie]
+    elif a1 is None or a2 is None:
+        g = a1 if a1 is not None else a2
+        axes = [(int(g), int(j)) for j in range(n) if j != g and dm[g, j] >= dm[g].max() - tie]
+    else:
+        axes = [(int(a1), int(a2))]
+    out = []
+    for e1, e2 in axes:
+        if n > 2 and op is None:
+            u = p[e2] - p[e1]; u = u / np.linalg.norm(u)
+            rel = p - p[e1]; pn = np.linalg.norm(rel - np.outer(rel @ u, u), axis=1)
+            out += [(e1, e2, int(o)) for o in range(n) if pn[o] >= pn.max() - tie]
+        else:
+            out.append((e1, e2, None if op is None else int(op)))
+    return out
+
+
 def hints_valid(p, a1, a2, op, min_off_axis=0.3):
+    """valid for every tie-equivalent resolution of the defaults"""
+    return all(_hints_valid1(p, e1, e2, eo, min_off_axis) for e1, e2, eo in default_candidates(p, a1, a2, op)) if len(p) > 1 else _hints_valid1(p, a1, a2, op, min_off_axis)
+
+
+def cconst_hints(p, a1=None, a2=None, op=None):
+    """largest amplification constant over the tie-equivalent resolutions of the defaults"""
+    p = np.asarray(p, float)
+    if len(p) == 1:
+        return 1.0
+    return max(cconst(p, e1, e2, eo) for e1, e2, eo in default_candidates(p, a1, a2, op))
+
+
+def _hints_valid1(p, a1, a2, op, min_off_axis=0.3):
     """three distinct points after defaults are resolved, orientation point off the axis"""
     p = np.asarray(p, float); n = len(p)
     e1, e2, eo = resolve_hints(p, a1, a2, op)
